@@ -10,12 +10,10 @@ Open Scope Z_scope.
 Theorem C03_source_tie :
   (forall m nidx, src_s2cmi m nidx = s2cmi m nidx) /\
   src_re_array_index = [92; 91; 40; 91; 48; 45; 57; 93; 43; 41; 93] /\
-  src_sort_natural = true /\
   (forall a b, src_strict_reject a b = (a >? b)) /\
   (forall a b, src_strict_append a b = (a =? b)) /\
   src_empty_read = EMPTY /\ src_empty_written = EMPTY /\
   src_index_format = [37; 115; 91; 37; 100; 93] /\
-  src_sti_per_branch = true /\
   src_qs_separators = [38; 59] /\ src_qs_equals = 61 /\ src_qs_plus = (43, 32).
 Proof. exact source_tie. Qed.
 
